@@ -696,6 +696,8 @@ fn generic_reduce_inner(
         repeated.push(process(env.pop(i + 1)?));
     }
     let xs = env.pop(n - 1)?;
+    // Rows of a scalar are the scalar itself, so the depth ends at the rank
+    let depth = depth.min(xs.rank());
     let value_fill = env.value_fill();
     if depth == 0 && value_fill.is_none() {
         if xs.row_count() == 0 {
